@@ -61,7 +61,7 @@ pub fn read_varint<R: BufRead>(mut src: R) -> Result<u64, VarintError> {
         }
 
         src.consume(buf_len);
-        if index > MAX_VARINT_LEN {
+        if index >= MAX_VARINT_LEN {
             break;
         }
     }
@@ -189,5 +189,21 @@ mod tests {
         buf[9] += 1;
         let decoded = read_varint(&mut Cursor::new(buf));
         assert!(matches!(decoded, Err(VarintError::InvalidVarint)));
+    }
+
+    #[test]
+    fn test_varint_too_long() {
+        // Ten or more bytes with the continuation bit set, followed by more
+        // input.
+        for n_continuation in [10, 11, 20] {
+            let mut buf = vec![0xff; n_continuation];
+            buf.push(0x00);
+
+            let decoded = read_varint(&mut Cursor::new(buf.clone()));
+            assert!(matches!(decoded, Err(VarintError::InvalidVarint)));
+
+            let decoded = read_varint(&mut OneByteCursor::new(&buf));
+            assert!(matches!(decoded, Err(VarintError::InvalidVarint)));
+        }
     }
 }
